@@ -34,7 +34,9 @@ RULE = ('every set partition of n<=5 nodes (n<=6 thorough), written with restric
         '{zero-based, negative, gaps, large (2^40+), huge (adjacent int64 at +-2^62), permuted block order, random injective mix} x random matrices with small '
         'dyadic weights (undirected weighted / directed / signed, several densities, isolated nodes); pairs of partitions '
         '(all pairs n<=4, n<=5 thorough; random pairs beyond) for partition_distance; stacks of 1-4 partitions for agreement; '
-        'random partitions of n<=9. non-trivial = at least two blocks and a relabelling that changes a label; '
+        'random partitions of n<=9; n = 1; non-zero diagonals (30 %); labels also as list / float64 / int32; gateway_coef_sign with both centrality '
+        'types; ls2ci on shuffled block lists (with an empty block) and the empty / IndexError cases; agreement with buffsz that splits the stack '
+        'unevenly; partition_distance with 1100 blocks. non-trivial = at least two blocks and a relabelling that changes a label; '
         'distinct by hash of (function, matrix, labels)')
 ASSUMES = ['weights are small dyadic rationals: the sums the model treats as exact are exact in binary64; quotients, sqrt and '
            'log are compared with relative tolerance 1e-9',
@@ -42,15 +44,22 @@ ASSUMES = ['weights are small dyadic rationals: the sums the model treats as exa
            'partition_distance: the model yields the three histograms, the harness applies log exactly as '
            'Model/PartitionReal.v (partition_distanceR) does; diversity_coef_sign: the model yields the matrices pnm of the '
            'positive and negative part, the harness applies -sum(p log p)/log(m)',
-           'gateway_coef_sign is modelled for centrality_type = degree (the default); the betweenness variant is not modelled',
+           'gateway_coef_sign is modelled as the code is for both centrality types; for betweenness the vector '
+           'betweenness_wei(invert(W)) (positive / negative part) is an oracle input of the model, recomputed by the harness with the same calls',
+           'dummyvar / agreement: np.argsort(axis=0) is an oracle of the statement-level model (any sorting permutation), taken per block of '
+           'columns exactly as agreement calls it; the scipy CSC constructor is modelled by its documented meaning',
+           'partition_distance: the exactly-when and [0,1] clauses are judged exactly; a miss below 1e-12 is binary64 round-off (open finding '
+           'partition_distance:VIn-roundoff), the repaired form (proposed_fixes/partition_distance_roundoff.diff, patched in memory) must meet them exactly',
            'the repaired form of gateway_coef_sign is compared with the source text of the function patched in memory with '
            'proposed_fixes/gateway_coef_sign.diff (skipped when the diff does not apply)',
            'np.histogram(c, bins=max(c)) of labels 1..K is the vector of label counts (checked by the correspondence)']
 TRUSTED = ['C14_VIn_range_any_log / C14_VIn_range / C14_partition_distance_ln_* (real-valued entropies) depend on the standard-library axioms of Coq\'s real '
            'numbers (ClassicalDedekindReals.sig_forall_dec, sig_not_dec, FunctionalExtensionality.functional_extensionality_dep, '
            'Classical_Prop.classic through ln/exp); every other C14 theorem is closed under the global context',
-           'gateway_coef_sign as the code is: C14_gateway_coef_sign_refuted (open finding gateway_coef_sign:relabel), the model '
-           'reproduces the IndexError as None']
+           'gateway_coef_sign as the code is: C14_gateway_coef_sign_refuted / C14_gateway_coef_sign_betweenness_refuted (open findings '
+           'gateway_coef_sign:relabel, gateway_coef_sign[betweenness]:relabel), the model reproduces the IndexError as None; '
+           'betweenness_wei is outside the model (oracle vector)',
+           'C14_und_sign_models_agree rests on C02 files Model/Modularity.v, Proofs/ModularitySums.v, Proofs/ModularityQ.v']
 
 TOL = 1e-9
 
@@ -368,6 +377,16 @@ def run(ctx):
                 if nm == 'base':
                     ref = out
                     ref_v = list(case.get('_input_variant') or [])
+                    # the same labels in another container: Python list, float64, int32
+                    an = ctx.rng.choice(['list', 'float64', 'int32'])
+                    alt = [int(x) for x in labels] if an == 'list' else np.array(labels, dtype=float if an == 'float64' else np.int32)
+                    ctx.count('label-container:' + an)
+                    try:
+                        with no_variants():          # this block is about the dtype / container of the label vector itself
+                            out_alt = call(f, alt, _t=3.0)
+                        ctx.check(close(out_alt, out), key0 + ':label-container', 'result differs when the labels come as %s: %s vs %s' % (an, tolist(out_alt), tolist(out)), dict(case, container=an))
+                    except Exception as e:
+                        ctx.fail(key0 + ':label-container', 'raised %r when the labels come as %s' % (e, an), dict(case, container=an))
                     want = orc(labels)
                     if fname == 'diversity_coef_sign' and K == 1:
                         pass            # log(1) = 0 in the denominator: undefined for a single module
@@ -504,7 +523,9 @@ def run(ctx):
                 alts.append(('int32', np.array(labels, dtype=np.int32)))
             for an, alt in alts:
                 try:
-                    ctx.check(bct.ci2ls(alt) == ls, 'ci2ls:label-container', 'ci2ls differs when the labels come as %s' % an, dict(case, container=an))
+                    with no_variants():
+                        ls_alt = bct.ci2ls(alt)
+                    ctx.check(ls_alt == ls, 'ci2ls:label-container', 'ci2ls differs when the labels come as %s' % an, dict(case, container=an))
                 except Exception as e:
                     ctx.fail('ci2ls:label-container', 'raised %r when the labels come as %s' % (e, an), dict(case, container=an))
         # ls2ci on lists that are NOT ci2ls output: block order and the order inside the blocks shuffled, sometimes an
@@ -566,7 +587,7 @@ def run(ctx):
             ctx.fail(key + (':VIn-roundoff' if -ULP < vin < 1 + ULP else ':range'), 'VIn=%r outside [0,1]' % vin, case)
         return vin, mi
 
-    def pdist(cx, cy, tag):
+    def pdist(cx, cy, tag, with_model=True):
         n = len(cx)
         case = {'fn': 'partition_distance', 'cx': [int(x) for x in cx], 'cy': [int(x) for x in cy]}
         ctx.case(case, nontrivial=len(set(cx)) > 1 or len(set(cy)) > 1)
@@ -604,11 +625,13 @@ def run(ctx):
                 if an != 'list' and any(abs(int(x)) >= 2 ** 31 for x in list(cx) + list(cy)):
                     continue
                 try:
-                    alt = call(bct.partition_distance, conv(cx), conv(cy))
+                    with no_variants():
+                        alt = call(bct.partition_distance, conv(cx), conv(cy))
                     ctx.check(close(alt, (vin, mi)), 'partition_distance:label-container', 'result differs when the labels come as %s: %r' % (an, tolist(alt)), dict(case, container=an))
                 except Exception as e:
                     ctx.fail('partition_distance:label-container', 'raised %r when the labels come as %s' % (e, an), dict(case, container=an))
-        model('pd %s %s' % (enc_list(cx, enc_zb), enc_list(cy, enc_zb)), 'pd', case, (vin, mi, trivial))
+        if with_model:
+            model('pd %s %s' % (enc_list(cx, enc_zb), enc_list(cy, enc_zb)), 'pd', case, (vin, mi, trivial))
 
     def argsort_cols(ci, chunks):
         """the argsort oracle of dummyvar, computed the way agreement calls it: per block of columns"""
@@ -710,6 +733,9 @@ def run(ctx):
     big = [int(x) for x in r.permutation(14)]
     pdist(big, [x // 2 for x in big], 'many-blocks')
     pdist([3 * x - 20 for x in big], [(x * 5) % 11 for x in big], 'many-blocks')
+    # more than 1000 blocks (a joint key cx + 1000*cy instead of the complex key would merge blocks); direct oracle only
+    sing = [int(x) for x in r.permutation(1100)]
+    pdist(sing, [1 if x < 100 else 0 for x in sing], 'thousand-blocks', with_model=False)     # keys x + 1000 (x < 100) would meet 1000..1099
     # ci2ls / ls2ci: empty input, an index beyond the number of entries, a hand-made list with an empty block
     for nm_, fcall, line, want in [
             ('ls2ci([])', lambda: list(bct.ls2ci([])), 'ls2ci_run 0 0', []),
